@@ -32,8 +32,8 @@ def gen(rng, i, tier):
             if not d[key]:
                 cb[0] += 1
                 d[key] = [5000 + cb[0]]
-    if not c['machine']['on_final']:
-        c['machine']['on_final'] = [4999]
+    if not c['machine']['on_final'] and i % 3 != 2:
+        c['machine']['on_final'] = [4999]       # (every third case keeps a machine without machine-level on_final)
     c['env'] = dict(default=True, bypos={p: r for p, r in c['env']['bypos'].items() if r[1] is None},
                     bycb={k: r for k, r in c['env']['bycb'].items() if r[1] is None})
     c['history'] = [(0, e, a) for (k, e, a) in c['history']]
